@@ -321,34 +321,35 @@ theorem c09_load_after_any_byte_prefix
 /-- the same for the concrete renderer of the model (`str(n)` numerals, tab-joined columns,
 `# benchmark: id=json` / `# run_id: id=json` records): the side conditions left are decidable
 predicates on the rendered fields (`rendOk`, `dpOk`, `cmdOk`, `noCR`) and the decoders accepting
-the renderer's payloads (`RendFor`, `PlOk`). -/
+the renderer's payloads (`RendFor`, `PlOk`, and `Mode`: benchmark data file, or profile data file
+whose JSON columns the decoder accepts). -/
 theorem c09_load_after_any_byte_prefix_rendered
-    (pl : Payloads) (hp : pl.profile = none) (R : Rend) (hR : rendOk R = true) (hpl : PlOk pl) (hfor : RendFor pl R)
+    (pl : Payloads) (R : Rend) (hR : rendOk R = true) (hpl : PlOk pl) (hfor : RendFor pl R)
     (oldText : Text) (hcr : noCR oldText = true) (st : LState)
     (hold : load Variant.repaired (records Variant.repaired pl R.hdr oldText) = .ok st)
     (cmd1 : Text) (empty1 : Bool) (ds1 : List WDP)
-    (hc1 : cmdOk cmd1 = true ∧ noCR cmd1 = true) (hd1 : ∀ d ∈ ds1, dpOk R d = true) (k : Nat) :
+    (hc1 : cmdOk cmd1 = true ∧ noCR cmd1 = true) (hm1 : Mode pl R ds1) (hd1 : ∀ d ∈ ds1, dpOk R d = true) (k : Nat) :
     ∃ st1 n,
       load Variant.repaired (records Variant.repaired pl R.hdr
           (oldText ++ (sessText st.tables (mkSess R cmd1 empty1 ds1)).take k)) = .ok st1
       ∧ n = countTotals (records Variant.repaired pl R.hdr ((sessText st.tables (mkSess R cmd1 empty1 ds1)).take k))
       ∧ st1.loaded = st.loaded ++ (ds1.take n).map WDP.toDP
       ∧ ∀ (later : List (Text × Bool × List WDP)),
-          (∀ s ∈ later, cmdOk s.1 = true ∧ noCR s.1 = true ∧ ∀ d ∈ s.2.2, dpOk R d = true) →
+          (∀ s ∈ later, cmdOk s.1 = true ∧ noCR s.1 = true ∧ Mode pl R s.2.2 ∧ ∀ d ∈ s.2.2, dpOk R d = true) →
           ∃ st3, load Variant.repaired (records Variant.repaired pl R.hdr
                     (oldText ++ (sessText st.tables (mkSess R cmd1 empty1 ds1)).take k
                       ++ sessionsText st1.tables (later.map (fun s => mkSess R s.1 s.2.1 s.2.2)))) = .ok st3
             ∧ st3.loaded = st1.loaded ++ (later.flatMap (·.2.2)).map WDP.toDP := by
   have hh : '#' ∉ R.hdr := (rendOk_spec hR).2.2.2.2.2
-  have hs1 := mkSess_ok pl hp R hR hfor cmd1 hc1.1 hc1.2 empty1 ds1 hd1
+  have hs1 := mkSess_ok pl R hR hfor cmd1 hc1.1 hc1.2 empty1 ds1 hm1 hd1
   obtain ⟨st1, n, h1, hn, hl1, hrest⟩ :=
     c09_load_after_any_byte_prefix pl R.hdr hh hpl oldText hcr st hold (mkSess R cmd1 empty1 ds1) hs1 k
   refine ⟨st1, n, h1, hn, hl1, fun later hlater => ?_⟩
   obtain ⟨st3, h3, hl3⟩ := hrest (later.map (fun s => mkSess R s.1 s.2.1 s.2.2)) (by
     intro s hs
     obtain ⟨x, hx, rfl⟩ := List.mem_map.mp hs
-    obtain ⟨c1, c2, c3⟩ := hlater x hx
-    exact mkSess_ok pl hp R hR hfor x.1 c1 c2 x.2.1 x.2.2 c3)
+    obtain ⟨c1, c2, c3, c4⟩ := hlater x hx
+    exact mkSess_ok pl R hR hfor x.1 c1 c2 x.2.1 x.2.2 c3 c4)
   refine ⟨st3, h3, ?_⟩
   rw [hl3]
   congr 2
@@ -358,12 +359,29 @@ theorem c09_load_after_any_byte_prefix_rendered
 /-- non-vacuity of the byte-prefix theorem: a concrete renderer, decoders, command lines and data
 points (two criteria, two iterations) satisfy every hypothesis, from the empty file -/
 theorem c09_byte_prefix_hypotheses_hold :
-    exPl.profile = none ∧ rendOk exRend = true ∧ PlOk exPl ∧ RendFor exPl exRend ∧ noCR [] = true
+    rendOk exRend = true ∧ PlOk exPl ∧ RendFor exPl exRend ∧ noCR [] = true
     ∧ load Variant.repaired (records Variant.repaired exPl exRend.hdr []) = .ok LState.init
     ∧ (cmdOk "rebench -D t.conf".toList = true ∧ noCR "rebench -D t.conf".toList = true)
+    ∧ Mode exPl exRend [(⟨0, 0, 1, 1, [("mem".toList, "7.000000".toList)], "3.000000".toList⟩ : WDP),
+              ⟨0, 0, 1, 2, [], "4.000000".toList⟩]
     ∧ (∀ d ∈ [(⟨0, 0, 1, 1, [("mem".toList, "7.000000".toList)], "3.000000".toList⟩ : WDP),
               ⟨0, 0, 1, 2, [], "4.000000".toList⟩], dpOk exRend d = true) :=
-  ⟨rfl, exRend_ok, exPl_ok, exRend_for, rfl, rfl, by decide, by decide⟩
+  ⟨exRend_ok, exPl_ok, exRend_for, rfl, rfl, by decide, Or.inl ⟨rfl, rfl⟩, by decide⟩
+
+/-- the same for a profile data file: the decoder accepts JSON columns that end in `]` -/
+theorem c09_byte_prefix_hypotheses_hold_profile :
+    let plP : Payloads := { exPl with profile := some (fun js => js.getLast? == some ']') }
+    let RP : Rend := { exRend with profile := true }
+    rendOk RP = true ∧ PlOk plP ∧ RendFor plP RP
+    ∧ load Variant.repaired (records Variant.repaired plP RP.hdr []) = .ok LState.init
+    ∧ Mode plP RP [(⟨0, 0, 1, 1, [], "[1]".toList⟩ : WDP), ⟨0, 0, 2, 1, [], "[2]".toList⟩]
+    ∧ (∀ d ∈ [(⟨0, 0, 1, 1, [], "[1]".toList⟩ : WDP), ⟨0, 0, 2, 1, [], "[2]".toList⟩], dpOk RP d = true) := by
+  refine ⟨by decide, ⟨exPl_ok.1, exPl_ok.2.1, ?_⟩, exRend_for, rfl, ?_, by decide⟩
+  · intro ok js h hok
+    simp only [Option.some.injEq] at h
+    subst h
+    left; simpa using hok
+  · exact Or.inr ⟨_, rfl, rfl, by decide⟩
 
 /-- and one evaluated instance (202 bytes of text): a cut inside the first `total` line counts
 nothing, a cut inside the last line counts the first data point, the whole text both -/
